@@ -7,7 +7,7 @@ namespace Borsh
 
 /-- (⇐) every valid encoding is accepted and yields the value the specification assigns -/
 theorem C04_valid_accepted_partial (st : Bool) (t : Ty) (v : Val) (bs : Bytes)
-    (hp : plain t = true) (hw : WfTy t = true) (hv : HasTy t v = true) (he : toVec t v = .ok bs) :
+    (hp : keysOk t = true) (hw : WfTy t = true) (hv : HasTy t v = true) (he : toVec t v = .ok bs) :
     fromSlice st t bs = .ok (canon t v) :=
   C01_roundtrip_partial t hp hw st v bs hv he
 
